@@ -187,7 +187,7 @@ def execute_live(scenario):
 def generate(rng, i, tier):
     if rng.random() < 0.2:
         return generate_live(rng)
-    knobs = {"p_removal": rng.choice([0.0, 0.2]), "p_suspend": rng.choice([0.0, 0.2]), "p_inplay": rng.choice([0.2, 0.6]), "n_updates": (6, rng.choice([12, 25])), "p_trade": 0.7, "n_runners": (2, 3)}
+    knobs = {"p_removal": rng.choice([0.0, 0.35]), "p_suspend": rng.choice([0.0, 0.2]), "p_inplay": rng.choice([0.2, 0.6]), "n_updates": (6, rng.choice([12, 25])), "p_trade": 0.7, "n_runners": (2, 4)}
     mix = {"p_act": rng.choice([0.4, 0.7]), "p_fok": 0.05, "p_sp": 0.05, "where": ("through", "at", "behind", "behind", "behind"), "max_size": 8.0, "w_txn": 0.3}
     sc = common.base_scenario(
         rng,
